@@ -1,15 +1,18 @@
 """C09 -- provider gateway: mTLS authentication only for holders of on-chain certificates; tenant scoping.
 
 J1  TLC model-checks spec/gateway/GatewayAuth.tla (MC_GatewayAuth): the transcribed decision procedure of
-    utils.go/middleware.go/router.go against the declarative oracle, on every case of the universe
-    (certificate class x chain registry x request URL); the as-found variant (MC_asfound.cfg) must FAIL
-    (discrimination test: the oracle is able to tell the defective procedure from the repaired one).
-J2  the same TLC run writes the universe as ndjson; `vh gateway run` concretises every case (real ECDSA keys,
+    utils.go / crypto/tls / middleware.go / router.go against the declarative oracle, on every case of two bounded
+    universes (certificate class x chain registry x request URL class, plus TLS session resumption cases).
+    Two discrimination tests: the as-found procedure (MC_asfound.cfg) must FAIL AuthSound, the strict reading of
+    "currently" (MC_strict.cfg) must FAIL RevocationEffective -- the oracle can tell them apart.
+J2  the same TLC runs write the universes as ndjson; `vh gateway run` concretises every line (real ECDSA keys,
     real DER, registry published through the real x/cert Msg server and read by the real querier), calls the
-    real VerifyPeerCertificate and performs a real TLS 1.3 handshake + HTTP/websocket request against the real
-    rest.NewServer, recording what the back end received.
+    real VerifyPeerCertificate and performs real TLS 1.3 handshakes + HTTP/websocket requests against the real
+    rest.NewServer, recording what the back end received. Free-running direction: concurrent keep-alive
+    sessions of many tenants and forgers against ONE gateway.
 J3  TLC (GatewayAuthTrace, -continue) judges every recorded line with the same TLA+ property definitions:
-    AuthHolds / VpcHolds / ScopeHolds = verdict, Conforms = drift.
+    AuthHolds / VpcHolds / ScopeHolds / ResumeHolds / ResumeScopeHolds = verdict, Conforms = drift,
+    RevocationEffective = strict-reading OBSERVATION (never a verdict).
 """
 import collections
 import concurrent.futures
@@ -17,27 +20,27 @@ import json
 import os
 import random
 import re
-import shutil
-import subprocess
 import time
 
 import vlib
 
 PROPERTIES = ["C09"]
 SPEC = os.path.join(vlib.SPEC, "gateway")
-VERDICT_INVS = ("AuthHolds", "VpcHolds", "ScopeHolds")
-CHUNK = 6000
-QUICK_SAMPLE = 20000      # cases of the thorough universe replayed in the quick tier (seeded sample)
+VERDICT_INVS = ("AuthHolds", "VpcHolds", "ScopeHolds", "ResumeHolds", "ResumeScopeHolds")
+OBSERVATION_INV = "RevocationEffective"
+CHUNK = 8000
+QUICK_SAMPLE = 12000      # cases of the thorough universe replayed in the quick tier (seeded sample)
+SESSIONS = {"quick": (48, 12), "thorough": (320, 24)}     # free-running: (sessions, requests per session)
 
 _RE_VIOL = re.compile(r"Error: Invariant (\w+) is violated by the initial state:\s*\n(?:/\\ )?l = (\d+)")
-_RE_UNIV = re.compile(r'<<\s*"(universe|auth|scope)",\s*\[(.*?)\]\s*>>', re.S)
+_RE_UNIV = re.compile(r'<<\s*"(universe|auth|scope|resume)",\s*\[(.*?)\]\s*>>', re.S)
+ECHO_KEYS = ("kind", "cert", "reg", "path", "change", "present")
 
 
 # ------------------------------------------------------------------------------------------------ J1 / J2
 
 def j1(cfg, timeout):
-    r = vlib.tlc(SPEC, "MC_GatewayAuth", cfg, workers=min(8, vlib.NCPU), timeout=timeout, deadlock=False)
-    return r
+    return vlib.tlc(SPEC, "MC_GatewayAuth", cfg, workers=min(4, vlib.NCPU), timeout=timeout, deadlock=False)
 
 
 def parse_universe(out):
@@ -47,18 +50,18 @@ def parse_universe(out):
     return u
 
 
-def exported_cases(r):
-    return read_lines(os.path.join(r.dir, "cases_auth.ndjson")), read_lines(os.path.join(r.dir, "cases_scope.ndjson"))
-
-
 def read_lines(path):
     with open(path) as fh:
         return [ln for ln in fh.read().split("\n") if ln.strip()]
 
 
+def exported_cases(r):
+    return [read_lines(os.path.join(r.dir, "cases_%s.ndjson" % part)) for part in ("auth", "scope", "resume")]
+
+
 # ------------------------------------------------------------------------------------------------ J3
 
-def judge(trace_lines, workdir, tag, timeout=900):
+def judge(trace_lines, workdir, tag, timeout=1200):
     """Run GatewayAuthTrace over the recorded lines (chunked, in parallel). Returns {inv: [global line index]}
     and the number of lines TLC evaluated."""
     chunks = [trace_lines[i:i + CHUNK] for i in range(0, len(trace_lines), CHUNK)] or [[]]
@@ -84,7 +87,7 @@ def judge(trace_lines, workdir, tag, timeout=900):
                 continue
             if "Model checking completed" not in r.out or r.distinct != len(chunks[n]):
                 raise vlib.Inconclusive("J3: TLC did not judge every recorded line of chunk %d (%d of %d)\n%s" % (
-                    n, r.distinct, len(chunks[n]), r.out[-3000:]))
+                    n, r.distinct, len(chunks[n]), (r.error or r.out[-3000:])))
             judged += r.distinct
             for inv, l in _RE_VIOL.findall(r.out):
                 viol[inv].append(n * CHUNK + int(l) - 1)
@@ -101,21 +104,25 @@ def classify(inv, o):
     """Stable, minimal identification of a violating input: which clause of the statement the accepted client /
     served id fails (first that applies, fixed order)."""
     c, reg = o["cert"], o["reg"]
-    if inv == "ScopeHolds":
+    if inv in ("ScopeHolds", "ResumeScopeHolds"):
+        pre = "scope" if inv == "ScopeHolds" else "resume-scope"
+        ident = c
+        if inv == "ResumeScopeHolds" and not o.get("resumed") and o.get("present") == "nocert":
+            ident = {"cn": "-", "chainLen": 0}
         for s in o["served"]:
-            if s["owner"] != c["cn"]:
-                return "scope:owner-not-authenticated-account route=%s" % o["path"]["route"]
+            if s["owner"] != ident["cn"]:
+                return "%s:owner-not-authenticated-account route=%s" % (pre, o["path"]["route"])
             if s["provider"] not in ("P", "-"):
-                return "scope:other-provider route=%s" % o["path"]["route"]
-        if not (o["tls"] and c["chainLen"] >= 1):
-            return "scope:served-without-accepted-client route=%s" % o["path"]["route"]
-        return "scope:id-differs-from-url route=%s dseq=%s gseq=%s oseq=%s" % (
-            o["path"]["route"], o["path"]["dseq"], o["path"]["gseq"], o["path"]["oseq"])
+                return "%s:other-provider route=%s" % (pre, o["path"]["route"])
+        if not (o["tls"] and ident["chainLen"] >= 1):
+            return "%s:served-without-accepted-client route=%s" % (pre, o["path"]["route"])
+        return "%s:id-differs-from-url route=%s dseq=%s gseq=%s oseq=%s" % (
+            pre, o["path"]["route"], o["path"]["dseq"], o["path"]["gseq"], o["path"]["oseq"])
+    if inv == "ResumeHolds":
+        return "resume:%s-connection-accepted-without-valid-proof change=%s present=%s" % (
+            "resumed" if o.get("resumed") else "second", o.get("change"), o.get("present"))
     where = "handshake" if inv == "AuthHolds" else "verifypeer"
-    if c["chainLen"] > 1:
-        extra = " chain"
-    else:
-        extra = ""
+    extra = " chain" if c["chainLen"] > 1 else ""
     if c["cn"] not in ("X", "Y"):
         return "%s:malformed-cn-accepted%s" % (where, extra)
     if inv == "AuthHolds" and not c["holds"]:
@@ -137,6 +144,31 @@ def classify(inv, o):
     return "%s:other%s" % (where, extra)
 
 
+def to_violations(pid, objs, viol):
+    groups = collections.OrderedDict()
+    auth = set(viol.get("AuthHolds", []))
+    for inv in VERDICT_INVS:
+        for i in sorted(viol.get(inv, [])):
+            if inv == "VpcHolds" and i in auth:
+                continue        # the same certificate was also accepted by the real handshake: reported there
+            o = objs[i]
+            groups.setdefault("C09:" + classify(inv, o), []).append((inv, o))
+    out = []
+    for sig, items in groups.items():
+        sample = [o for _, o in items[:25]]
+        inv, o = items[0]
+        detail = ("TLC: invariant %s of GatewayAuthTrace is false on %d recorded line(s) of the real gateway.\n"
+                  "first: cert=%s\n       reg=%s\n       path=%s\n       observed: vpc=%s tls=%s status=%s served=%s%s\n       request: %s" % (
+                      inv, len(items), json.dumps(o["cert"], sort_keys=True), json.dumps(o["reg"], sort_keys=True),
+                      json.dumps(o["path"], sort_keys=True), o["vpc"], o["tls"], o["status"], json.dumps(o["served"]),
+                      (" change=%s present=%s tls0=%s resumed=%s" % (o.get("change"), o.get("present"), o.get("tls0"), o.get("resumed"))
+                       if o["kind"] == "resume" else ""), o.get("url")))
+        files = {"cases.ndjson": "\n".join(json.dumps({k: x[k] for k in ECHO_KEYS if k in x}, sort_keys=True) for x in sample) + "\n",
+                 "trace.ndjson": "\n".join(json.dumps(x, sort_keys=True) for x in sample) + "\n"}
+        out.append(vlib.Violation(pid, sig, detail, files))
+    return out
+
+
 # ------------------------------------------------------------------------------------------------ harness
 
 def run_harness(vh, cases_path, out_path, seed, timeout):
@@ -148,28 +180,69 @@ def run_harness(vh, cases_path, out_path, seed, timeout):
         raise vlib.Inconclusive("harness failed rc=%d\n%s" % (rc, txt[-3000:]))
 
 
-def check_echo(case_lines, trace_lines):
-    """Binding, part 1: every exported case came back exactly once, and the line says which case it ran."""
-    seen = {}
-    for ln in trace_lines:
+def make_sessions(rnd, singles, nsess, nreq):
+    """Free-running direction: client identities taken from the exported universe (half of them genuine, half
+    anything), each with a random sequence of request URL classes of the universe."""
+    cases = [o for o in singles if o["kind"] == "case"]
+    paths = [o["path"] for o in cases]
+    genuine = [o for o in cases if o["cert"]["der"] == "onchain" and o["cert"]["holds"] and o["cert"]["chainLen"] == 1
+               and _lookup(o["reg"], o["cert"]["cn"], o["cert"]["serial"])["state"] == "valid"
+               and o["cert"]["window"] == "ok" and o["cert"]["usage"] in ("client", "both", "none")]
+    out = []
+    for n in range(nsess):
+        src = rnd.choice(genuine) if (n % 2 == 0 and genuine) else rnd.choice(cases)
+        out.append({"kind": "session", "cert": src["cert"], "reg": src["reg"], "paths": [rnd.choice(paths) for _ in range(nreq)]})
+    return out
+
+
+def execute(seed, singles, sessions, workdir, vh, t_budget):
+    """J2 + J3 on a list of single lines (case / resume dicts) and session dicts."""
+    expected = {}
+    lines = []
+    i = 0
+    for o in singles:
+        i += 1
+        expected[i] = {k: o[k] for k in ECHO_KEYS if k in o}
+        lines.append(json.dumps(dict(o, i=i)))
+    for s in sessions:
+        lines.append(json.dumps(dict(s, i=i + 1)))
+        for p in s["paths"]:
+            i += 1
+            expected[i] = {"kind": "case", "cert": s["cert"], "reg": s["reg"], "path": p}
+    cases_path = os.path.join(workdir, "in.ndjson")
+    with open(cases_path, "w") as fh:
+        fh.write("\n".join(lines) + "\n")
+    trace_path = os.path.join(workdir, "trace.ndjson")
+    run_harness(vh, cases_path, trace_path, seed, t_budget)
+
+    # binding, part 1: every line came back exactly once and says which case it ran
+    got = {}
+    orphans = []
+    for ln in read_lines(trace_path):
         o = json.loads(ln)
-        if o["i"] in seen:
-            raise vlib.Inconclusive("case %d recorded twice" % o["i"])
-        seen[o["i"]] = o
-    if sorted(seen) != list(range(1, len(case_lines) + 1)):
-        raise vlib.Inconclusive("recorded %d of %d exported cases" % (len(seen), len(case_lines)))
-    for i, ln in enumerate(case_lines, 1):
-        k = json.loads(ln)
-        o = seen[i]
-        if k["cert"] != o["cert"] or k["reg"] != o["reg"] or k["path"] != o["path"]:
-            raise vlib.Inconclusive("recorded line %d does not echo exported case %d" % (i, i))
-    return [json.dumps(seen[i], sort_keys=True) for i in range(1, len(case_lines) + 1)], [seen[i] for i in range(1, len(case_lines) + 1)]
+        if o["i"] < 0:
+            orphans.append(o)
+            continue
+        if o["i"] in got:
+            raise vlib.Inconclusive("line %d recorded twice" % o["i"])
+        got[o["i"]] = o
+    if sorted(got) != sorted(expected):
+        raise vlib.Inconclusive("recorded %d of %d expected lines" % (len(got), len(expected)))
+    for n, e in expected.items():
+        o = got[n]
+        if any(o.get(k) != v for k, v in e.items()):
+            raise vlib.Inconclusive("recorded line %d does not echo the exported case" % n)
+    objs = [got[n] for n in sorted(got)] + orphans
+    trace_lines = [json.dumps(o, sort_keys=True) for o in objs]
+    viol, judged = judge(trace_lines, workdir, "trace")
+    return objs, viol, judged, len(orphans)
 
 
 def selftest(objs, workdir, flagged=()):
-    """Binding, part 2: corrupt one recorded outcome field / one served id and require TLC to reject the line."""
+    """Binding, part 2: corrupt one recorded outcome field / one served id / drop one back-end event and require
+    TLC to reject exactly the corrupted lines."""
     flagged = set(flagged)
-    objs = [o for n, o in enumerate(objs) if n not in flagged]      # start from lines TLC accepted as they are
+    objs = [o for n, o in enumerate(objs) if n not in flagged and o["kind"] == "case"]   # lines TLC accepted as they are
     refused = next((o for o in objs if o["cert"]["chainLen"] == 1 and o["cert"]["cn"] == "X" and not o["tls"]
                     and o["cert"]["holds"] and o["cert"]["der"] == "fresh"
                     and all(o["reg"][k]["state"] != "valid" for k in ("X/s1", "X/s2"))), None)
@@ -179,173 +252,180 @@ def selftest(objs, workdir, flagged=()):
     a = json.loads(json.dumps(refused))
     a["tls"] = True                      # pretend a refused forged client had been accepted
     b = json.loads(json.dumps(served))
-    b["served"][0]["owner"] = "Y"        # pretend the back end had been handed another tenant's lease
+    b["served"][0]["owner"] = "Y" if served["cert"]["cn"] != "Y" else "X"   # another tenant's lease handed to the back end
     c = json.loads(json.dumps(served))
     c["served"] = []                     # drop the back-end event: must be flagged as non-conforming
     lines = [json.dumps(x, sort_keys=True) for x in (refused, a, served, b, c)]
     viol, judged = judge(lines, workdir, "selftest", timeout=300)
     got = {inv: sorted(v) for inv, v in viol.items()}
-    ok = (judged == 5 and 1 in got.get("AuthHolds", []) and 0 not in got.get("AuthHolds", [])
-          and 3 in got.get("ScopeHolds", []) and 2 not in got.get("ScopeHolds", [])
-          and 4 in got.get("Conforms", []) and 2 not in got.get("Conforms", []))
-    return {"ok": ok, "corruptions": ["tls false->true on a refused forged client", "served owner X->Y",
+    ok = (judged == 5 and got.get("AuthHolds") == [1] and got.get("ScopeHolds") == [3]
+          and got.get("Conforms") == [1, 3, 4])
+    return {"ok": ok, "corruptions": ["tls false->true on a refused forged client", "served owner -> other tenant",
                                       "served event dropped"], "tlc_flagged": got}
 
 
-# ------------------------------------------------------------------------------------------------ main
-
-def execute(pid, tier, seed, case_lines, workdir, vh, t_budget):
-    cases_path = os.path.join(workdir, "cases.ndjson")
-    with open(cases_path, "w") as fh:
-        fh.write("\n".join(case_lines) + "\n")
-    trace_path = os.path.join(workdir, "trace.ndjson")
-    run_harness(vh, cases_path, trace_path, seed, t_budget)
-    trace_lines, objs = check_echo(case_lines, read_lines(trace_path))
-    viol, judged = judge(trace_lines, workdir, "trace")
-    return trace_lines, objs, viol, judged
+ASSUMPTIONS = [
+    "crypto/tls, crypto/x509 and net/http of the Go toolchain are trusted (the handshake proves key possession)",
+    "the chain is the real x/cert keeper + Msg server + gRPC querier over an in-memory IAVL store; the ante "
+    "handler (signature of the publishing account) is not exercised: Publish is executed with signer = owner",
+    "the provider back end is a recorder; ids are observed at the provider.Client boundary",
+    "time is sampled deep inside and at the edges (2 s behind, 2 min ahead) of each validity class, not at every instant",
+    "weak reading (DESIGN 5.1): only accepted/served outcomes can violate; 'currently valid' is judged on the "
+    "on-chain OR the presented certificate at the moment key possession is proven (full handshake); any on-chain "
+    "serial of the account with the presented key counts; a malformed id in the URL only has to stay inside the "
+    "authenticated account",
+]
 
 
 def run(pid, tier, seed, replay):
     t0 = time.time()
     workdir = vlib.scratch("gateway-")
     vh = vlib.build_harness()
-    assumptions = [
-        "crypto/tls, crypto/x509 and net/http of the Go toolchain are trusted (the handshake proves key possession)",
-        "the chain is the real x/cert keeper + Msg server + gRPC querier over an in-memory IAVL store; the ante "
-        "handler (signature of the publishing account) is not exercised: Publish is executed with signer = owner",
-        "the provider back end is a recorder; ids are observed at the provider.Client boundary",
-        "time is sampled at now +/- minutes..months, not at every instant",
-        "weak reading (DESIGN 5.1): only accepted/served outcomes can violate; 'currently valid' is judged on the "
-        "on-chain OR the presented certificate; any on-chain serial of the account with the presented key counts",
-    ]
     cov = {"exhaustive": False, "configs": [], "seeds": [seed]}
+    rnd = random.Random(seed)
 
     if replay:
         src = os.path.join(replay, "cases.ndjson") if os.path.isdir(replay) else replay
-        case_lines = [json.dumps({k: json.loads(l)[k] for k in ("cert", "reg", "path")}) for l in read_lines(src)]
-        _, objs, viol, judged = execute(pid, tier, seed, case_lines, workdir, vh, 1200)
+        singles = []
+        for l in read_lines(src):
+            o = json.loads(l)
+            o.setdefault("kind", "case")
+            singles.append({k: o[k] for k in ECHO_KEYS if k in o})
+        objs, viol, judged, _ = execute(seed, singles, [], workdir, vh, 1200)
         violations = to_violations(pid, objs, viol)
         for inv in viol:
-            vlib.log("[C09] replay: %s violated on %d line(s)" % (inv, len(viol[inv])))
-        cov.update(states=max(1, len(case_lines)), transitions=max(1, len(case_lines)), traces_validated_against_impl=judged,
-                   evaluations=len(case_lines), distinct_nontrivial=len(case_lines), rule="replay of saved cases",
-                   samples=[json.loads(l) for l in case_lines[:3]], drift_steps=len(viol.get("Conforms", [])),
+            vlib.log("[C09] replay: %s false on %d line(s)" % (inv, len(viol[inv])))
+        cov.update(states=max(1, len(singles)), transitions=max(1, len(singles)), traces_validated_against_impl=judged,
+                   evaluations=len(singles), distinct_nontrivial=max(2, len(singles)), rule="replay of saved cases",
+                   samples=singles[:3], drift_steps=len(viol.get("Conforms", [])),
                    binding_selftest={"ok": True, "skipped": "replay"})
-        return vlib.finish(pid, tier, seed, "model_checking", cov, t0, violations, assumptions)
+        return vlib.finish(pid, tier, seed, "model_checking", cov, t0, violations, ASSUMPTIONS)
 
-    # ---- J1 (+ discrimination test) -----------------------------------------------------------------------
+    # ---- J1 (+ discrimination tests) ----------------------------------------------------------------------
     # both universes are model-checked completely in every tier (seconds); the tiers differ in how much of the
     # thorough universe is replayed on the real code: a seeded sample (quick) or all of it (thorough)
     cfgs = ["MC_quick.cfg", "MC_thorough.cfg"]
-    with concurrent.futures.ThreadPoolExecutor(max_workers=3) as ex:
+    with concurrent.futures.ThreadPoolExecutor(max_workers=4) as ex:
         futs = {cfg: ex.submit(j1, cfg, 1500) for cfg in cfgs}
         fut_asfound = ex.submit(j1, "MC_asfound.cfg", 900)
+        fut_strict = ex.submit(j1, "MC_strict.cfg", 900)
         results = {cfg: f.result() for cfg, f in futs.items()}
-        r_asfound = fut_asfound.result()
+        r_asfound, r_strict = fut_asfound.result(), fut_strict.result()
     states = transitions = 0
     exported = {}
     for cfg in cfgs:
         r = results[cfg]
         vlib.tlc_require_ok(r, "J1 %s" % cfg)
         u = parse_universe(r.out)
-        la, ls = exported_cases(r)
-        lines = list(collections.OrderedDict((json.dumps(json.loads(l), sort_keys=True), None) for l in la + ls))
-        if not u or u.get("auth", {}).get("n") != len(la) or u.get("scope", {}).get("n") != len(ls) or r.distinct != len(lines):
-            raise vlib.Inconclusive("J1 %s: exported %d+%d cases (%d distinct), TLC checked %d, universe record %s" % (
-                cfg, len(la), len(ls), len(lines), r.distinct, u))
+        parts = exported_cases(r)
+        lines = list(collections.OrderedDict((l, None) for part in parts for l in part))
+        if (not u or [u.get(k, {}).get("n") for k in ("auth", "scope", "resume")] != [len(p) for p in parts]
+                or r.distinct != len(lines)):
+            raise vlib.Inconclusive("J1 %s: exported %s cases (%d distinct), TLC checked %d, universe record %s" % (
+                cfg, [len(p) for p in parts], len(lines), r.distinct, u))
         vlib.log("[C09] J1 %s: %d cases model-checked clean in %.1fs %s" % (cfg, r.distinct, r.wall_s, u))
         states += r.distinct
         transitions += r.generated - r.distinct
         cov["configs"].append({"cfg": cfg, "states": r.distinct, "generated": r.generated, "wall_s": round(r.wall_s, 1), "universe": u})
         exported[cfg] = lines
     if r_asfound.violated != "AuthSound":
-        raise vlib.Inconclusive("discrimination test: the as-found procedure (MC_asfound.cfg) must violate AuthSound in J1, "
-                                "got %r" % r_asfound)
+        raise vlib.Inconclusive("discrimination test: the as-found procedure (MC_asfound.cfg) must violate AuthSound in J1, got %r" % r_asfound)
+    if r_strict.violated != "RevocationEffective":
+        raise vlib.Inconclusive("discrimination test: the strict reading (MC_strict.cfg) must violate RevocationEffective in J1, got %r" % r_strict)
     cov["asfound_model_violates"] = r_asfound.violated
-    rnd = random.Random(seed)
+    cov["strict_reading_model_violates"] = r_strict.violated
     quick_set = set(exported["MC_quick.cfg"])
     rest = [l for l in exported["MC_thorough.cfg"] if l not in quick_set]     # shared cases are replayed once
     if tier == "quick":
-        rest = rnd.sample(rest, min(len(rest), QUICK_SAMPLE))
-    case_lines = exported["MC_quick.cfg"] + rest
-    rnd.shuffle(case_lines)              # the seed also drives which gateway/connection order a case gets
+        resume_rest = [l for l in rest if '"kind":"resume"' in l]             # the few resumption cases: always all
+        other = [l for l in rest if '"kind":"resume"' not in l]
+        rest = resume_rest + rnd.sample(other, min(len(other), QUICK_SAMPLE))
+    singles = [json.loads(l) for l in exported["MC_quick.cfg"] + rest]
+    rnd.shuffle(singles)                 # the seed also drives which gateway/connection order a case gets
+    nsess, nreq = SESSIONS[tier]
+    sessions = make_sessions(rnd, singles, nsess, nreq)
     cov["replayed"] = {"MC_quick.cfg": len(quick_set), "MC_thorough.cfg": len(rest),
-                       "of_thorough_universe": len(exported["MC_thorough.cfg"])}
+                       "of_thorough_universe": len(exported["MC_thorough.cfg"]),
+                       "free_running_sessions": nsess, "requests_per_session": nreq}
 
     # ---- J2 + J3 ------------------------------------------------------------------------------------------
-    trace_lines, objs, viol, judged = execute(pid, tier, seed, case_lines, workdir, vh, 3000)
-    drift = sorted(set(viol.get("Conforms", [])) - set(i for inv in VERDICT_INVS for i in viol.get(inv, [])))
+    objs, viol, judged, norphans = execute(seed, singles, sessions, workdir, vh, 3000)
+    bad = set(i for inv in VERDICT_INVS for i in viol.get(inv, []))
+    drift = sorted(set(viol.get("Conforms", [])) - bad)
     for i in drift[:10]:
         o = objs[i]
-        vlib.log("DRIFT C09 line %d: observed vpc=%s tls=%s served=%s for cert=%s reg=%s path=%s" % (
-            o["i"], o["vpc"], o["tls"], o["served"], o["cert"], o["reg"], o["path"]))
+        vlib.log("DRIFT C09 line %d (%s): observed vpc=%s tls=%s served=%s%s for cert=%s reg=%s path=%s" % (
+            o["i"], o["kind"], o["vpc"], o["tls"], o["served"],
+            (" tls0=%s resumed=%s change=%s present=%s" % (o.get("tls0"), o.get("resumed"), o.get("change"), o.get("present"))
+             if o["kind"] == "resume" else ""), o["cert"], o["reg"], o["path"]))
+    if len(drift) > 10:
+        vlib.log("DRIFT C09: %d more line(s)" % (len(drift) - 10))
     violations = to_violations(pid, objs, viol)
 
-    accepted = [o for o in objs if o["tls"] and o["cert"]["chainLen"] >= 1]
+    # strict reading of "currently" (a revoked certificate keeps being served on resumed TLS sessions): observation only
+    obs = sorted(viol.get(OBSERVATION_INV, []))
+    if obs:
+        o = next((objs[i] for i in obs if objs[i]["served"]), objs[obs[0]])
+        vlib.log("OBSERVATION C09 (strict reading, not a verdict): on %d recorded line(s) a client was served as %s on a NEW "
+                 "connection although the registry no longer holds a valid certificate for its key (TLS session resumption: "
+                 "tickets are issued and VerifyPeerCertificate is not invoked on resumption); first: change=%s present=%s "
+                 "resumed=%s served=%s" % (len(obs), o["cert"]["cn"], o.get("change"), o.get("present"), o.get("resumed"), o["served"]))
+
+    cases = [o for o in objs if o["kind"] == "case"]
+    resumes = [o for o in objs if o["kind"] == "resume"]
+    accepted = [o for o in cases if o["tls"] and o["cert"]["chainLen"] >= 1]
     nontrivial = set()
-    for o in objs:
+    for o in cases:
         c = o["cert"]
         if c["chainLen"] >= 1:      # a certificate was presented: distinct (cert class, registry, outcome) triples
             nontrivial.add((json.dumps(c, sort_keys=True), json.dumps(o["reg"], sort_keys=True), o["tls"]))
-    scoped = set((json.dumps(o["path"], sort_keys=True), json.dumps(o["cert"], sort_keys=True)) for o in objs if o["served"])
+    scoped = set((json.dumps(o["path"], sort_keys=True), json.dumps(o["cert"], sort_keys=True)) for o in cases if o["served"])
+    resumed = set((json.dumps(o["cert"], sort_keys=True), json.dumps(o["reg"], sort_keys=True), o["change"], o["present"],
+                   json.dumps(o["path"], sort_keys=True)) for o in resumes if o.get("resumed"))
     st = selftest(objs, workdir, [i for v in viol.values() for i in v])
     if not st["ok"] and not violations:
         raise vlib.Inconclusive("binding self-test failed: %s" % st)
+    sess_lines = [o for o in cases if o.get("session")]
     cov.update(
         states=states, transitions=max(1, transitions),
         transitions_note="input-quantified spec: one initial state per case, the only steps are stutters",
         traces_validated_against_impl=judged,
-        evaluations=len(objs) * 2,     # one direct VerifyPeerCertificate call + one real TLS connection per case
-        distinct_nontrivial=len(nontrivial) + len(scoped),
-        rule="cases are the TLC-enumerated universe (cert class x registry x URL class), each executed once; counted: "
-             "distinct (presented certificate class, registry, handshake outcome) with a certificate presented, plus "
-             "distinct (URL class, certificate class) whose request reached the back end",
+        evaluations=len(cases) + len(cases) - len(sess_lines) + 3 * len(resumes),
+        evaluations_note="per case one direct VerifyPeerCertificate call and one real TLS connection + request; per resumption "
+                         "case two connections; per session request one request over a kept-alive or new connection",
+        distinct_nontrivial=len(nontrivial) + len(scoped) + len(resumed),
+        rule="cases are the TLC-enumerated universes (cert class x registry x URL class; resumption cases), each executed once; "
+             "counted: distinct (presented certificate class, registry, handshake outcome) with a certificate presented, plus "
+             "distinct (URL class, certificate class) whose request reached the back end, plus distinct resumption cases whose "
+             "second connection was a TLS resumption",
         accepted_connections=len(accepted),
-        served_requests=sum(1 for o in objs if o["served"]),
-        refused_handshakes=sum(1 for o in objs if not o["tls"]),
+        served_requests=sum(1 for o in cases if o["served"]),
+        refused_handshakes=sum(1 for o in cases if not o["tls"]),
+        resumption_cases=len(resumes),
+        resumed_connections=sum(1 for o in resumes if o.get("resumed")),
+        free_running={"sessions": nsess, "requests": len(sess_lines), "served": sum(1 for o in sess_lines if o["served"]),
+                      "orphan_backend_calls": norphans},
+        strict_reading_observations=len(obs),
         exhaustive=(tier == "thorough"),
         exhaustive_note="J1 is exhaustive over both bounded universes in every tier; the replay on the real code covers all of "
                         "the quick universe and %s of the thorough one" % ("all" if tier == "thorough" else "a seeded sample"),
         drift_steps=len(drift),
         binding_selftest=st,
-        samples=[{k: o[k] for k in ("cert", "reg", "path", "vpc", "tls", "status", "served", "url", "tlsErr")}
-                 for o in (pick(objs, rnd))],
+        samples=[{k: o[k] for k in ("kind", "cert", "reg", "path", "vpc", "tls", "status", "served", "url", "tlsErr",
+                                    "change", "present", "tls0", "resumed") if k in o} for o in pick(objs, rnd)],
     )
-    return vlib.finish(pid, tier, seed, "model_checking", cov, t0, violations, assumptions)
+    return vlib.finish(pid, tier, seed, "model_checking", cov, t0, violations, ASSUMPTIONS)
 
 
 def pick(objs, rnd):
     out = []
-    for pred in (lambda o: o["served"] and o["path"]["extra"] == "spoof",
-                 lambda o: not o["tls"] and o["cert"]["der"] == "fresh" and o["cert"]["cn"] == "X" and o["cert"]["issuer"] == "self"
-                 and o["reg"]["X/s1"]["state"] == "valid" and o["cert"]["window"] == "ok",
-                 lambda o: not o["tls"] and o["cert"]["issuer"] == "other",
-                 lambda o: o["tls"] and o["status"] == 400):
+    for pred in (lambda o: o["kind"] == "case" and o["served"] and o["path"]["extra"] == "spoof",
+                 lambda o: o["kind"] == "case" and not o["tls"] and o["cert"]["der"] == "fresh" and o["cert"]["cn"] == "X"
+                 and o["cert"]["issuer"] == "self" and o["reg"]["X/s1"]["state"] == "valid" and o["cert"]["window"] == "ok",
+                 lambda o: o["kind"] == "case" and not o["tls"] and o["cert"]["issuer"] == "other",
+                 lambda o: o["kind"] == "case" and o["tls"] and o["status"] == 400,
+                 lambda o: o["kind"] == "resume" and o.get("resumed") and o["change"] == "revoke" and o["served"]):
         c = [o for o in objs if pred(o)]
         if c:
             out.append(rnd.choice(c))
     return out or objs[:2]
-
-
-def to_violations(pid, objs, viol):
-    groups = collections.OrderedDict()
-    auth = set(viol.get("AuthHolds", []))
-    for inv in VERDICT_INVS:
-        for i in sorted(viol.get(inv, [])):
-            if inv == "VpcHolds" and i in auth:
-                continue        # the same certificate was also accepted by the real handshake: reported there
-            o = objs[i]
-            sig = "C09:" + classify(inv, o)
-            groups.setdefault(sig, []).append((inv, o))
-    out = []
-    for sig, items in groups.items():
-        sample = [o for _, o in items[:25]]
-        inv, o = items[0]
-        detail = ("TLC: invariant %s of GatewayAuthTrace is false on %d recorded line(s) of the real gateway.\n"
-                  "first: cert=%s\n       reg=%s\n       path=%s\n       observed: vpc=%s tls=%s status=%s served=%s\n       request: %s" % (
-                      inv, len(items), json.dumps(o["cert"], sort_keys=True), json.dumps(o["reg"], sort_keys=True),
-                      json.dumps(o["path"], sort_keys=True), o["vpc"], o["tls"], o["status"], json.dumps(o["served"]), o.get("url")))
-        files = {"cases.ndjson": "\n".join(json.dumps({k: x[k] for k in ("cert", "reg", "path")}, sort_keys=True) for x in sample) + "\n",
-                 "trace.ndjson": "\n".join(json.dumps(x, sort_keys=True) for x in sample) + "\n"}
-        out.append(vlib.Violation(pid, sig, detail, files))
-    return out
